@@ -261,12 +261,25 @@ def run(ctx):
             s = Slice(F, b).operand(t["args"][0])
             ctx.check("C37-d", "%s#try_from" % fkey(dec), s.has_call(r"Message::decode$") and not s.consts(), "Command::try_from(decoded WriteCommand)",
                       "Command::try_from is not fed the decoded WriteCommand", loc(b, x))
-        cmd_aggs = [(bi, si, st) for (bi, si, st) in agg_sites(b, "command::ApplyEntry")
-                    if guarded_by(b, bi, lambda c: c.kind == "discr" and c.variants == {"Command"} and ends(c.adt or "", "entry_payload::Payload"))[0]]
-        ctx.floor("C37-d", len(cmd_aggs), 1, "ApplyEntry built in the Payload::Command arm")
-        for (bi, si, st) in cmd_aggs:
+        # the ApplyEntry of a Payload::Command entry carries the converted command: either the ApplyEntry is built inside the
+        # Command arm, or one ApplyEntry is built after the match from a per-arm `command` value - in both forms the value that
+        # reaches ApplyEntry.command from the Command arm is the result of try_from and no Command literal is built in that arm
+        cconds = edge_conditions(b)
+        arm_entries = [c.edge["dst"] for c in cconds.values() if c.kind == "discr" and c.variants == {"Command"} and ends(c.adt or "", "entry_payload::Payload")]
+        ctx.floor("C37-d", len(arm_entries), 1, "Payload::Command arm in decode_entries")
+        cmd_aggs = []
+        for e in arm_entries:
+            nxt = frozenset(x for (x, _t) in calls_matching(b, r"Iterator::next$"))     # stay inside one iteration of `for entry in entries`
+            reach, _p = b.reach_from(e, stop_blocks=nxt)
+            for (bi, si, st) in agg_sites(b, "command::ApplyEntry"):
+                if bi in reach and (bi, si, st, e) not in cmd_aggs:
+                    cmd_aggs.append((bi, si, st, e))
+        ctx.floor("C37-d", len(cmd_aggs), 1, "ApplyEntry built in (or after) the Payload::Command arm")
+        for (bi, si, st, e) in cmd_aggs:
             s = Slice(F, b).operand(agg_field(st, "command"))
-            ctx.check("C37-d", "%s#ApplyEntry.command" % fkey(dec), s.has_call(r"TryFrom.*::try_from$") and not any(x[0] == "agg" and ends(x[1], "command::Command") for x in s.sources),
+            conv = [x for (x, t) in b.calls() if re.search(r"TryFrom.*::try_from$|::try_from$", strip_generics(callee_key(t) or "")) and b.dominates(e, x) and t["dest"]["l"] in s.seen]
+            literal = [x for (x, _si, _st) in agg_sites(b, "command::Command") if b.dominates(e, x)]
+            ctx.check("C37-d", "%s#ApplyEntry.command" % fkey(dec), bool(conv) and not literal,
                       "ApplyEntry.command = Command::try_from(..)", "the command applied for a Payload::Command entry is not the converted WriteCommand", loc(b, bi))
     # the leader's write path encodes write_op_to_proto(cmd)
     callers = [c for c in F.callers_of(lambda k: enc is not None and k == enc.id) if F.bodies[c[1]].crate != "d_engine_proto" and "test" not in c[0]]
